@@ -93,8 +93,11 @@ ASSUMPTIONS = [
     "listen() - creating command rejected / all uploads failed / bind refused - listen again with the fault gone): every successful listen() "
     "must have an open loopback listener behind it, on the port Tor forwards the public port to at that moment (Tor's own record of the "
     "service), may only be reported while Tor really has the service and after an UPLOADED of it was delivered at some time, and after "
-    "stopping the ports / after a failed second listen() nothing may be open; for 'twice without stopping' one public port cannot be "
-    "forwarded to two listeners, so the mapping is counted, not judged there; a second listen() that fails cleanly is always accepted",
+    "stopping the ports / after a failed second listen() nothing may be open; further histories: the old local port is refused by the reactor when listening again (somebody else took it), and the service "
+    "is removed between the two listens the regular way (filesystem: config.HiddenServices.remove(service) + save() with another, unrelated "
+    "service left in Tor's configuration so that the SETCONF is not empty; ephemeral: service.remove() = DEL_ONION) - uploads of the removed "
+    "incarnation do not count for a new one; for 'twice without stopping' the first listener legitimately stays open: there, what the second "
+    "listen() itself opened (if anything) must be what Tor forwards to; a second listen() that fails cleanly is always accepted",
 ]
 TRUSTED_BASE = ["vf.fakereactor.FakeReactor (tracked listening ports, harness-resolved connects)",
                 "vf.faketor.oniontor.OnionTor (reference Tor, self-tested)", "vf.refs.addonion, vf.refs.kvline (decoders, self-tested)",
@@ -123,7 +126,8 @@ FLOORS = {
               "not_fired_checks": 4500, "not_fired_nor_failed_on_foreign_events_checks": 500, "foreign_window_runs": 120, "gethost_compared": 180, "stop_checked": 180, "stops_after_restart_checked": 90, "leak_checks_after_failure": 1200,
               "failure_errors_compared": 1000, "refusals_before_start_checked": 10, "reactor_watched_for_starts_before_refusal": 14, "config_bootstrap_failures_compared": 150,
               "preconfigured_directory_runs": 15, "relisten_runs": 300, "relisten_successes_checked": 150,
-              "relisten_open_listener_checks": 100, "relisten_failures_checked": 15, "fault:reject-line": 120, "route:ctor-raw": 100, "fault:close-on-line": 300,
+              "relisten_open_listener_checks": 100, "relisten_failures_checked": 15, "relisten:after-stop-port-taken": 60,
+              "relisten:after-service-removed": 60, "relisten:without-stop": 60, "fault:reject-line": 120, "route:ctor-raw": 100, "fault:close-on-line": 300,
               "fault:close-after-reply": 300, "fault:reject": 120, "fault:uploads-failed": 180, "fault:bind": 90, "fault:config": 40,
               "route:ctor": 200, "route:tor": 140, "route:str-system": 80, "route:str-global": 45,
               "reach:txtorcon.endpoints:TCPHiddenServiceEndpoint.listen": 1400,
@@ -134,7 +138,8 @@ FLOORS = {
                  "not_fired_checks": 14000, "not_fired_nor_failed_on_foreign_events_checks": 900, "foreign_window_runs": 200, "gethost_compared": 500, "stop_checked": 500, "stops_after_restart_checked": 250, "leak_checks_after_failure": 3500,
                  "failure_errors_compared": 3000, "refusals_before_start_checked": 10, "reactor_watched_for_starts_before_refusal": 14, "config_bootstrap_failures_compared": 400,
                  "preconfigured_directory_runs": 15, "relisten_runs": 400, "relisten_successes_checked": 200,
-                 "relisten_open_listener_checks": 130, "relisten_failures_checked": 20, "fault:reject-line": 400, "route:ctor-raw": 400, "fault:close-on-line": 1200,
+                 "relisten_open_listener_checks": 130, "relisten_failures_checked": 20, "relisten:after-stop-port-taken": 70,
+                 "relisten:after-service-removed": 70, "relisten:without-stop": 70, "fault:reject-line": 400, "route:ctor-raw": 400, "fault:close-on-line": 1200,
                  "fault:close-after-reply": 1200, "fault:reject": 300, "fault:uploads-failed": 450, "fault:bind": 250, "fault:config": 100,
                  "random_cases": 4000,
                  "route:ctor": 400, "route:tor": 300, "route:str-system": 300, "route:str-global": 100,
@@ -257,6 +262,7 @@ def base_faults(route, cell):
     # histories on ONE endpoint object: listen() again after the returned port was stopped / without stopping it /
     # after a failed listen() (the injected fault hits the first listen() only)
     f += [["none", "relisten", "after-stop"], ["none", "relisten", "without-stop"],
+          ["none", "relisten", "after-stop-port-taken"], ["none", "relisten", "after-service-removed"],
           ["reject", word, 512 if cell["eph"] else 513, "relisten"], ["uploads-failed", 1, "relisten"], ["bind", "relisten"]]
     return f
 
@@ -451,6 +457,14 @@ class World(object):
             self.tor = OT.OnionTor(non_anonymous_mode=nonanon, conf=conf, auth_methods=("HASHEDPASSWORD",), password=b"the right one")
         else:
             self.tor = OT.OnionTor(non_anonymous_mode=nonanon, conf=conf)
+        self.other_dir = None
+        if self.fault[:3] == ["none", "relisten", "after-service-removed"] and not self.cell.get("eph", True):
+            # Tor already hosts an unrelated filesystem service: removing ours later is then an ordinary, non-empty SETCONF
+            other = tempfile.mkdtemp(prefix="hsother", dir=self.root)
+            self.tor.authenticated = True
+            r0 = self.tor.dispatch('SETCONF HiddenServiceDir=%s HiddenServicePort="9999 127.0.0.1:9999" HiddenServiceVersion=3' % other)
+            self.tor.authenticated = False
+            self.other_dir = other if r0 and r0 != "close" and r0[0] == 250 else None
         self.reactor = FakeReactor(first_port=case.get("first_port") or self.cell.get("first_port") or 41000)
         self._wrap_listen()
         self.link = None
@@ -1079,7 +1093,7 @@ def execute(case):
             hist = PORT_HISTORIES[-1]
             if "history" in w.cell:
                 hist = PORT_HISTORIES[(int(w.cell["history"]) + ROUTES.index(w.route)) % len(PORT_HISTORIES)]
-            if relisten_mode == "after-stop":
+            if relisten_mode in ("after-stop", "after-stop-port-taken", "after-service-removed"):
                 hist = ("stop",)
             elif relisten_mode == "without-stop":
                 hist = ()
@@ -1152,7 +1166,7 @@ def relisten(w, ep, o1, mode):
     obs = w.obs
     r = obs.relisten = {"mode": mode, "first_ok": bool(o1.ok), "raised": None, "fired": 0, "ok": None, "error": None, "at_fire": None,
                         "open_before": w.open_ports(), "open_after_listen": None, "mapping": None, "open_after_stop": None,
-                        "open_at_end": None, "stop_raised": None, "new_listen_calls": None, "lines": None}
+                        "open_at_end": None, "stop_raised": None, "new_listen_calls": None, "new_listeners": None, "lines": None}
     del w.reactor._refuse[:]            # the injected bind refusal concerned the first attempt
     # what belongs to the first listen() ends here
     w.replies1 = len(w.tor.replies)
@@ -1161,6 +1175,36 @@ def relisten(w, ep, o1, mode):
     if w.link is None or w.link.lost:
         r["skipped"] = "control connection gone"
         return
+    if mode == "after-stop-port-taken":
+        # somebody else got the old local port in the meantime
+        old = [c["lp"].port for c in obs.listen_calls if c["ok"]]
+        if not old:
+            r["skipped"] = "no first listener"
+            return
+        w.reactor.refuse_listen(old[0])
+        r["old_port_refused"] = old[0]
+    if mode == "after-service-removed":
+        svc = w.service()
+        if svc is None:
+            r["skipped"] = "no service to remove"
+            return
+        sid = svc[0]
+        try:
+            if w.cell.get("eph", True):
+                dr = o1.value.onion_service.remove()                     # DEL_ONION
+            else:
+                cfg = w.cfg if w.cfg is not None else ep._config
+                cfg.HiddenServices.remove(o1.value.onion_service)        # the regular way through TorConfig
+                dr = cfg.save()
+            w.aud.watch(dr, "remove-service")
+        except Exception as e:      # noqa
+            r["skipped"] = "removing the service raised %r" % (e,)
+            return
+        w.step("relisten:service-removed")
+        if tor_mapping(w, sid) is not None:
+            r["skipped"] = "Tor still has the service after the removal"
+            return
+        obs.uploaded_for[sid] = 0       # uploads of the removed incarnation do not count for a new one
     n_calls, n_lines = len(obs.listen_calls), len(w.tor.lines)
     try:
         d2 = ep.listen(protocol.Factory())
@@ -1187,6 +1231,7 @@ def relisten(w, ep, o1, mode):
         w.step("relisten:uploaded")
     r["fired"], r["ok"] = o2.fired, o2.ok
     r["new_listen_calls"] = [(c["interface"], c["port"], c["ok"]) for c in obs.listen_calls[n_calls:]]
+    r["new_listeners"] = [(c["lp"].interface, c["lp"].port) for c in obs.listen_calls[n_calls:] if c["ok"]]
     r["lines"] = w.tor.lines[n_lines:][-6:]
     ports = []
     if o2.fired and o2.ok:
@@ -1359,11 +1404,13 @@ def judge_relisten(w, rec, case):
     def V(clause, detail):
         bad.append(clause)
         d = dict(detail)
-        d["second_listen"] = {k: r[k] for k in ("mode", "fired", "ok", "error", "new_listen_calls", "lines", "open_after_listen", "mapping", "at_fire")}
+        d["second_listen"] = {k: r.get(k) for k in ("mode", "fired", "ok", "error", "new_listen_calls", "lines", "open_after_listen", "mapping", "at_fire",
+                                                      "old_port_refused")}
         rec.violation(clause, cls, d, case)
 
     if r.get("skipped"):
         rec.count("relisten_skipped")
+        rec.seen("relisten_skipped_reasons", "%s: %s" % (r["mode"], str(r["skipped"])[:60]))
         return bad
     rec.count("relisten_runs")
     rec.count("relisten:" + r["mode"])
@@ -1396,7 +1443,14 @@ def judge_relisten(w, rec, case):
                 if len(got) != 1 or got[0] not in want:
                     V("port-mapping-mismatch", {"tor_forwards": got, "open_listeners": opened})
         else:
-            rec.count("relisten_without_stop_mapping_not_judged")
+            # the first port is still open: what the SECOND listen() itself opened (if anything) must be what Tor forwards to
+            rec.count("relisten_without_stop_checks")
+            newl = [tuple(x) for x in (r["new_listeners"] or [])]
+            if newl and r["mapping"] is not None:
+                rec.count("relisten_mappings_compared")
+                got = [(pp, tuple(t)) for (pp, t) in r["mapping"]]
+                if len(got) != 1 or got[0] not in [(cell["public_port"], x) for x in newl]:
+                    V("port-mapping-mismatch", {"tor_forwards": got, "listeners_opened_by_second_listen": newl, "open_listeners": opened})
         if r["stop_raised"]:
             V("stoplistening-raised", {"exc": r["stop_raised"]})
         if r["open_after_stop"]:
